@@ -24,7 +24,7 @@
 #ifndef TYPE
 #define TYPE 1
 #endif
-#if TYPE==2
+#if TYPE==2 || defined(CH2)
 #define CHN 2
 #define HALF 4
 #else
@@ -39,10 +39,12 @@
 #define RMAX 16
 static codebook fb[NBK];
 static int r_kind[RMAX], r_book[RMAX], r_ch[RMAX], r_off[RMAX], r_n[RMAX], r_ret[RMAX], g_r=0;
-static float v0[HALF], v1[HALF]; static float *g_in[2];
+static float V[2*HALF+8]; static float *g_in[2];   /* one object: channel 0 at V, channel 1 at V+HALF+8 (pointer comparisons stay inside one object) */
+#define v0 (V)
+#define v1 (V+HALF+8)
 static void rec(int kind,int book,int ch,int off,int n,int ret){ CHECK(g_r<RMAX,"bounded number of codebook reads"); r_kind[g_r]=kind; r_book[g_r]=book; r_ch[g_r]=ch; r_off[g_r]=off; r_n[g_r]=n; r_ret[g_r]=ret; g_r++; }
 long vorbis_book_decode(codebook *book,oggpack_buffer *b){ long v=ND_range(-1,5); rec(0,(int)(book-fb),-1,0,0,(int)v); return v; }
-static long part(codebook *book,float *a,int n,int kind){ int ch= (a>=v0&&a<=v0+HALF)?0:(a>=v1&&a<=v1+HALF)?1:-1; CHECK(ch>=0,"partition decoded into one of the channel vectors");
+static long part(codebook *book,float *a,int n,int kind){ long d=a-V; CHECK(d>=0 && d<=2*HALF+8,"partition decoded into one of the channel vectors"); int ch= d<HALF+8?0:1;
   int off=(int)(a-(ch?v1:v0)); CHECK(off>=0 && n>=0 && off+n<=HALF,"partition [offset,offset+size) inside the vector"); int ret=ND_BOOL()?0:-1; rec(kind,(int)(book-fb),ch,off,n,ret); return ret; }
 long vorbis_book_decodevs_add(codebook *book,float *a,oggpack_buffer *b,int n){ return part(book,a,n,1); }
 long vorbis_book_decodev_add(codebook *book,float *a,oggpack_buffer *b,int n){ return part(book,a,n,2); }
@@ -72,7 +74,7 @@ void harness(void){
   int vec= TYPE==2? CHN*HALF : HALF;                      /* decoded vector length */
   int end= info.end<vec?info.end:vec, n=end-info.begin, r=0, stop=0;
   int dec[2], nd=0; for(int j=0;j<CHN;j++) if(nz[j]) dec[nd++]=j;       /* channels actually decoded, in order (types 0/1 compact them to the front) */
-  int streams= TYPE==2? ((nz[0]||nz[1])?1:0) : nd;   /* types 0/1 run with one channel here (CHN=1): the per-channel interleaving of classification words is outside this job */
+  int streams= TYPE==2? ((nz[0]||nz[1])?1:0) : nd;   /* types 0/1: one channel, or two with -DCH2 (per-channel interleaving of classification words and partitions) */
   if(n>0 && streams>0){
     int pv=n/2, cls[2][8];
     for(int s=0;s<passes && !stop;s++){
@@ -81,7 +83,7 @@ void harness(void){
         for(int k=0;k<2 && i<pv && !stop;k++,i++) for(int j=0;j<streams && !stop;j++){ int c=cls[j][2*l+k], bk=sb[c][s];
           if(bk>=0){ CHECK(r<g_r && r_book[r]==bk && r_n[r]==2,"partition decoded with the stage book of its classification for this pass, partition size samples");
             if(TYPE==2) CHECK(r_kind[r]==3 && r_off[r]==info.begin+i*2,"residue 2: partition i at begin + i*size of the interleaved vector");
-            else CHECK(r_kind[r]==(TYPE==0?1:2) && r_ch[r]==j && r_off[r]==info.begin+i*2,"residue 0/1: partition i of decoded channel j at begin + i*size, with the format's vector layout");
+            else CHECK(r_kind[r]==(TYPE==0?1:2) && r_ch[r]==dec[j] && r_off[r]==info.begin+i*2,"residue 0/1: partition i of decoded channel j at begin + i*size, with the format's vector layout");
             if(r_ret[r++]==-1) stop=1; } }
       }
     }
